@@ -8,9 +8,9 @@ from .common_diff import run_cases, generic_replay
 PROOF_MODULE = "Nlmodel.Proofs.C12"
 PROOF_FILES = ["Nlmodel/Proofs/C12.lean", "Nlmodel/Model/VM.lean", "Nlmodel/Spec/Eval.lean"]
 THEOREM_FILE = PROOF_FILES[0]
-LEVEL_TEXT = ("Lean theorems on the machine model's flat stack with vm.rs's base-pointer arithmetic: Call places the new base pointer at the first argument (parameter i is argument i), null-initialises every other local slot (fresh activation), saves the caller's return address and base pointer, and touches nothing else; too many arguments / the 16-bit stack limit / a non-function callee are errors raised before anything is pushed; Return(Value) discards exactly the callee's part of the stack, pushes the result on the caller's part, which is unchanged below the callee's base pointer, and resumes the caller's frame. Definitional level: arguments are bound by position (missing ones null), the body runs in an activation containing the parameters only, and the caller's activation is put back exactly; antwoord from any depth ends the call. Tied to vm.rs/compiler.rs by real eval vs definitional evaluator vs machine model (step counts, stack height at Halt, collections) on programs with up to 6 functions of 0-4 parameters and 0-4 locals calling each other from every expression context, recursion to depth 200, and directed runs to the stack limit.")
-LEVEL_NOTE = ("Trusted: Lean kernel; that a callee never pops below its own base pointer is the operand-height invariant of C02 (checked per program by the verified bytecode checker), not re-proved here.")
-TECHNIQUE = "Lean 4 proof (call/return frame lemmas on the flat stack; activation isolation in the definitional semantics) + differential call-heavy programs"
+LEVEL_TEXT = ("Lean theorems on the machine model's flat stack with vm.rs's base-pointer arithmetic: Call places the new base pointer at the first argument (parameter i is argument i), null-initialises every other local slot (fresh activation), saves the caller's return address and base pointer, and touches nothing else; too many arguments / the 16-bit stack limit / a non-function callee are errors raised before anything is pushed; Return(Value) discards exactly the callee's part of the stack, pushes the result on the caller's part, which is unchanged below the callee's base pointer, and resumes the caller's frame. Definitional level: arguments are bound by position (missing ones null), the body runs in an activation containing the parameters only, and the caller's activation is put back exactly; antwoord from any depth ends the call. WHOLE CALLS (C12_call_simulation, instance of the forward simulation of C01 stage 4): in any frame `below ++ locals ++ operands` with any suspended callers, a call expression of the scalar/function fragment whose definitional evaluation gives v brings the machine to the instruction after the Call with `below` untouched, the caller's locals as the restored activation has them, exactly v pushed, and the same suspended callers - through recursion, nested calls, early antwoord and loops in the callee; the only other outcomes are the matching error or the machine's stack/frame limit. Tied to vm.rs/compiler.rs by real eval vs definitional evaluator vs machine model (step counts, stack height at Halt, collections) on programs with up to 6 functions of 0-4 parameters and 0-4 locals calling each other from every expression context, recursion to depth 200, and directed runs to the stack limit, and a frame-shape x boundary-depth matrix around the 65535-slot limit (value right below it, stack-overflow error at the same depth as the machine model above it).")
+LEVEL_NOTE = ("Trusted: Lean kernel; for programs outside the scalar/function fragment (heap values, builtins) that a callee never pops below its own base pointer is the operand-height invariant of C02 (checked per program by the verified bytecode checker).")
+TECHNIQUE = "Lean 4 proof (call/return frame lemmas; whole-call forward simulation on the flat stack; activation isolation in the definitional semantics) + differential call-heavy programs and stack-limit matrix"
 RULE = ("generated programs with up to 6 functions (0-4 parameters, 0-4 locals) calling each other directly, mutually and recursively (depth "
         "<= 200), from operands, array literals, argument lists, conditions, with functions stored in variables/arrays, passed and returned; "
         "directed runs to the frame and stack limits; non-trivial = distinct program compared on all three sides")
@@ -102,8 +102,32 @@ DIRECTED = [
 ]
 
 
+def limit_shapes(tier):
+    """finite recursions that stop by themselves at depths just below / at / above the depth where the operand
+    stack reaches the machine's 65535-slot limit, for several frame shapes: `nl` local slots per activation (`na` of
+    them parameters), `p` operands pending in the caller while the call is made.  Below the boundary the value must
+    be right, above it the run must end in the stack-overflow IndexError - at the same depth in the machine model."""
+    out = []
+    shapes = [(8, 0, 0), (8, 1, 1), (8, 1, 3), (12, 2, 0), (12, 2, 2), (12, 0, 3), (16, 3, 1), (9, 1, 2)]
+    if tier != "quick":
+        shapes += [(nl, na, p) for nl in (3, 5, 20) for na in (0, 1, 2) for p in (0, 1, 2, 3)]
+    for nl, na, p in shapes:
+        per = nl + p
+        d0 = 65535 // per
+        for depth in range(d0 - 3, d0 + 2):
+            ps = ["a%d" % i for i in range(na)]
+            body = ["stel l%d = %d;" % (i, i) for i in range(nl - na)]
+            call = "f(%s)" % ", ".join(ps)
+            for k in range(p):
+                call = "%d + (%s)" % (k + 1, call)
+            src = ("stel diepte = 0;\nfunctie f(%s) {\n  %s\n  diepte += 1;\n  als diepte >= %d { antwoord 0 };\n  %s\n}\nstel r = f(%s);\n[r, diepte]"
+                   % (", ".join(ps), " ".join(body), depth, call, ", ".join(str(7 + i) for i in range(na))))
+            out.append(("limit-shape", src))
+    return out
+
+
 def run(res, tier, rng, table_diffs=()):
-    cases = [("directed", d) for d in DIRECTED]
+    cases = [("directed", d) for d in DIRECTED] + limit_shapes(tier)
     for _ in range(600 if tier == "quick" else 12000):
         cases.append(("calls", call_program(rng.fork())))
     run_cases(res, "C12", cases, budget=3000000)
